@@ -96,7 +96,7 @@ impl Hist for C07 {
 
 fn configs(tier: Tier) -> Vec<(C07, usize)> {
     match tier {
-        Tier::Quick => vec![(C07 { len0: Some(5), xs: XS.to_vec() }, 3), (C07 { len0: None, xs: vec![1, u64::MAX] }, 3), (C07 { len0: Some(u64::MAX), xs: vec![0, 1 << 63, u64::MAX] }, 3)],
+        Tier::Quick => vec![(C07 { len0: Some(5), xs: XS.to_vec() }, 3), (C07 { len0: Some(5), xs: vec![1, u64::MAX] }, 4), (C07 { len0: None, xs: vec![1, u64::MAX] }, 3), (C07 { len0: Some(u64::MAX), xs: vec![0, 1 << 63, u64::MAX] }, 3)],
         Tier::Thorough => vec![(C07 { len0: Some(5), xs: XS.to_vec() }, 4), (C07 { len0: None, xs: XS.to_vec() }, 3), (C07 { len0: Some(u64::MAX), xs: vec![1, 1 << 63, u64::MAX] }, 5)],
     }
 }
